@@ -381,6 +381,8 @@ pub fn canaries(m: &mut Mon) {
 }
 
 pub const FLOORS: &[&str] = &[
+    "histories_with_more_than_10000_backward_moves",
+    "piece_panicked_and_evaluator_reused",
     "forward_move",
     "backward_move",
     "backward_move_landing_exactly_on_end",
@@ -442,6 +444,9 @@ pub fn workload_a(a: &Args, m: &mut Mon, r: &mut Rng, nhist: u64, nan: bool, max
         if k % 16 == 5 {
             pipeline(m, r, nan);
         }
+        if k % 16 == 9 && !nan {
+            panicking_piece_history(m, r);
+        }
         if k % 3 == 0 {
             macro_rules! go {
                 ($t:ident) => {
@@ -466,6 +471,76 @@ pub fn workload_a(a: &Args, m: &mut Mon, r: &mut Rng, nhist: u64, nan: bool, max
             }
         }
     }
+}
+
+/// A piece type with a domain assertion: evaluating it at one poisoned argument panics. The caller catches the panic
+/// and keeps using the same evaluator; every later answer must still be the one direct evaluation gives ("the answer to
+/// a query never depends on the queries made before it" — including a query whose piece refused its argument).
+#[derive(Clone, Copy)]
+struct Boom {
+    id: u32,
+    poison: u64,
+}
+impl Evaluate for Boom {
+    fn evaluate(&self, x: f64) -> f64 {
+        assert!(x.to_bits() != self.poison, "argument outside the domain of this piece (probe)");
+        tagval(self.id, x)
+    }
+}
+
+fn panicking_piece_history(m: &mut Mon, r: &mut Rng) {
+    let n = r.usize(2, 9);
+    let ends = gen_ends_any(r, n).0;
+    let pol = r.pick(&POLICIES);
+    let len = r.usize(3, 40);
+    let hist = gen_history(r, &ends, len, pol);
+    let poison = hist[r.usize(0, hist.len() - 2)];
+    if poison.is_nan() {
+        return;
+    }
+    let pw: Piecewise<Boom> = Piecewise { segments: ends.iter().enumerate().map(|(i, e)| Segment { end: *e, poly: Boom { id: i as u32, poison: poison.to_bits() } }).collect() };
+    m.count("histories_with_a_panicking_piece");
+    m.case(hash_bits(33, ends.iter().chain(hist.iter()).map(|e| e.to_bits()).chain([poison.to_bits()])));
+    let mut ev = PiecewiseEvaluator::new(&pw.segments);
+    for (k, &x) in hist.iter().enumerate() {
+        if x.is_nan() {
+            continue;
+        }
+        m.eval();
+        let got = guard(|| ev.evaluate(x));
+        if x.to_bits() == poison.to_bits() {
+            m.count("piece_panicked_and_evaluator_reused");
+            continue;
+        }
+        let s = sel(&ends, x);
+        let exp = tagval(s as u32, x);
+        match got {
+            Err(p) => {
+                m.panic("evaluator panic after a piece had panicked earlier", &p, || json!({"ends": hxs(&ends), "history_prefix": hist_json(&hist[..=k]), "poison": hx(poison)}));
+                return;
+            }
+            Ok(v) => {
+                if v.to_bits() != exp.to_bits() {
+                    m.violation("history evaluator wrong-segment after a piece had panicked", || {
+                        json!({"ends": hxs(&ends), "history_prefix": hist_json(&hist[..=k]), "poison": hx(poison), "k": k, "expected_segment": s})
+                    });
+                    return;
+                }
+            }
+        }
+    }
+}
+
+/// One evaluator serving a very long history on a short function: tens of thousands of backward moves.
+fn many_backward_moves(m: &mut Mon, r: &mut Rng, len: usize) {
+    let n = r.usize(3, 12);
+    let ends = gen_ends_any(r, n).0;
+    let pw = tag_pw(&ends);
+    let qs = critical_queries(&ends);
+    let hist: Vec<f64> = (0..len).map(|_| qs[r.usize(0, qs.len() - 1)]).filter(|x| !x.is_nan()).collect();
+    m.count("histories_with_more_than_10000_backward_moves");
+    m.case(hash_bits(34, ends.iter().map(|e| e.to_bits()).chain([len as u64])));
+    tag_history(m, false, &ends, &pw, &hist, "history");
 }
 
 /// Functions the library itself produced (knots -> constrained_spline / linear -> derivative / integral / scale),
@@ -559,6 +634,7 @@ pub fn run(a: &Args, m: &mut Mon) {
         }
         m.count("function_longer_than_65536");
     }
+    many_backward_moves(m, &mut r, if a.thorough() { 400_000 } else { 50_000 });
     let nh = a.n(1_200_000, 100_000_000);
     workload_a(a, m, &mut r, nh, false, 100_000);
     let nf = a.n(6_000, 60_000);
